@@ -884,17 +884,19 @@ class t2listing(object):
         tablename = 'element'
         self.read_header() # only one header at each time
         last_tablename = None
+        last_passed = None # last table passed in the file, read or skipped
         while tablename:
             if tablename in self.skip_tables: self.skip_table(tablename)
             elif tablename in self._table: self.read_table(tablename)
             else: # tables not present at first time step
                 next_tablename = self.next_tablename(last_tablename)
                 if next_tablename:
-                    self.skip_to_table(next_tablename, last_tablename, 1)
+                    self.skip_to_table(next_tablename, last_passed, 1)
                     # now at the start of the next known table, which still has to be read:
                     tablename = next_tablename
                     continue
             if tablename in self._tablenames: last_tablename = tablename
+            last_passed = tablename
             tablename = self.next_table()
 
     def read_tables_TOUGHplus(self):
